@@ -273,30 +273,33 @@ func ruleP14Model(p *Prog, r *Report) {
 	tags := p.method("klog", "RecordSummary", "Tags")
 	if r.anchorFn("P14-once", tags, "klog.RecordSummary.Tags") {
 		var find ssa.CallInstruction
-		eachVInstr(tags, func(in ssa.Instruction) {
-			if c, ok := in.(ssa.CallInstruction); ok {
+		var findVI vinstr
+		for _, vi := range virtualInstrs(tags) {
+			if c, ok := vi.in.(ssa.CallInstruction); ok {
 				if n, _, _, _ := methodCallOf(c); n == "FindAllStringSubmatch" || n == "FindAllString" {
-					find = c
+					find, findVI = c, vi
 				}
 			}
-		})
+		}
 		ok := false
 		if find != nil {
-			_, recv, args, _ := methodCallOf(find)
-			u, isU := strip(recv).(*ssa.UnOp)
-			k, isK := constInt(args[1])
-			coll := rangeElemOf(args[0])
-			only, _ := onlyLoopGuards(find.Block())
-			// (the lines of the summary: the summary itself, or its Lines(), which is the same slice)
-			isSelf := coll != nil && deref(coll) == ssa.Value(tags.Params[0])
-			if nm, rv, _, mc := methodCall(coll); !isSelf && mc != nil && nm == "Lines" && rv != nil && strip(rv) == ssa.Value(tags.Params[0]) {
-				if g := staticCallee(mc); g != nil && len(g.Params) == 1 {
-					if rets := plainReturnsOf(g); len(rets) == 1 && len(rets[0].Results) == 1 && strip(rets[0].Results[0]) == ssa.Value(g.Params[0]) {
-						isSelf = true
+			findVI.run(func() {
+				_, recv, args, _ := methodCallOf(find)
+				u, isU := strip(recv).(*ssa.UnOp)
+				k, isK := constInt(args[1])
+				coll := rangeElemOf(args[0])
+				only, _ := onlyLoopGuards(find.Block())
+				// (the lines of the summary: the summary itself, or its Lines(), which is the same slice)
+				isSelf := coll != nil && deref(coll) == ssa.Value(tags.Params[0])
+				if nm, rv, _, mc := methodCall(coll); !isSelf && mc != nil && nm == "Lines" && rv != nil && strip(rv) == ssa.Value(tags.Params[0]) {
+					if g := staticCallee(mc); g != nil && len(g.Params) == 1 {
+						if rets := plainReturnsOf(g); len(rets) == 1 && len(rets[0].Results) == 1 && strip(rets[0].Results[0]) == ssa.Value(g.Params[0]) {
+							isSelf = true
+						}
 					}
 				}
-			}
-			ok = isU && u.X == ssa.Value(p.global("klog", "HashTagPattern")) && isK && k < 0 && isSelf && only
+				ok = isU && u.X == ssa.Value(p.global("klog", "HashTagPattern")) && isK && k < 0 && isSelf && only
+			})
 		}
 		r.check(ok, "P14-once", "Summary.Tags:all-matches", p.pos(tags.Pos()), "all matches (n = -1) of the tag pattern in every summary line", "Summary.Tags does not collect all tag matches of all lines")
 		okPut := false
@@ -333,6 +336,29 @@ func ruleP14Model(p *Prog, r *Report) {
 			for _, ret := range returnsOf(et) {
 				if c, _ := callOf(retResult(ret, 0)); c != nil && sameFn(staticCallee(c), tags) {
 					okD = true
+				}
+				// … or both go to the same private function with their own lines
+				if c, ok := ret.Results[0].(*ssa.Call); ok && !okD {
+					if g := rawStaticCallee(c); g != nil && isHelper(g) && len(c.Call.Args) == 1 {
+						for _, r2 := range returnsOf(tags) {
+							if c2, ok2 := r2.Results[0].(*ssa.Call); ok2 && rawStaticCallee(c2) != nil && originFn(rawStaticCallee(c2)) == originFn(g) && len(c2.Call.Args) == 1 {
+								own := func(v ssa.Value, f *ssa.Function) bool {
+									x := v
+									for {
+										if ct, isCT := x.(*ssa.ChangeType); isCT {
+											x = ct.X
+											continue
+										}
+										break
+									}
+									return x == ssa.Value(f.Params[0])
+								}
+								if own(c.Call.Args[0], et) && own(c2.Call.Args[0], tags) {
+									okD = true
+								}
+							}
+						}
+					}
 				}
 			}
 			r.check(okD, "P14-once", "EntrySummary.Tags", p.pos(et.Pos()), "entry summaries use the same recognition", "entry summaries do not use RecordSummary.Tags")
@@ -570,7 +596,7 @@ func ruleP20Xor(p *Prog, r *Report) {
 			// which branch
 			isNilBranch, known := false, false
 			for _, gd := range guardsOf(st.Block()) {
-				if x, isNil, ok := nilFact(gd); ok && deref(x) == ssa.Value(errs) {
+				if x, isNil, ok := nilFact(gd); ok && (deref(x) == ssa.Value(errs) || strip(x) == ssa.Value(errs)) {
 					isNilBranch, known = isNil, true
 				}
 			}
